@@ -511,6 +511,7 @@ type Input struct {
 	Err   *ErrInput      `json:"error,omitempty"`
 	Union *UnionInput    `json:"union,omitempty"`
 	Same  *SameNameInput `json:"same_name,omitempty"`
+	Reb   *RebindInput   `json:"rebind,omitempty"`
 	Scale *scalekit.Case `json:"scale,omitempty"`
 }
 
@@ -528,7 +529,7 @@ func shards(tier string) []string {
 		out = append(out, fmt.Sprintf("union/%d", i))
 	}
 	out = append(out, scalekit.ShardNames()...)
-	return append(out, "errors", "samename")
+	return append(out, "errors", "samename", "rebind")
 }
 
 func run(c *core.Ctx) {
@@ -682,6 +683,24 @@ func run(c *core.Ctx) {
 			}
 			return true
 		})
+	case "rebind":
+		for _, in := range rebindInputs() {
+			in := in
+			caseNo, run := c.Begin()
+			if c.Skip(caseNo, run, Input{Reb: &in}) {
+				continue
+			}
+			c.Exec()
+			c.Validate()
+			c.Edge(2)
+			c.StateN(1)
+			c.NontrivialN(1)
+			if f := checkRebind(in); f != nil {
+				report(caseNo, Input{Reb: &in}, f)
+			} else {
+				c.Outcome("bound-to-the-revision-the-import-denotes-now")
+			}
+		}
 	case "samename":
 		for v := range sameNameFiles {
 			for o := 0; o < 4; o++ {
@@ -753,6 +772,9 @@ func replay(tier string, raw json.RawMessage) (bool, string, string) {
 	case in.Scale != nil:
 		v := checkScale(*in.Scale)
 		return v.Fp != "", "scale:" + v.Fp, fmt.Sprintf("expected %s\nobserved %s", v.Exp, v.Obs)
+	case in.Reb != nil:
+		f = checkRebind(*in.Reb)
+		text = rebindText(*in.Reb)
 	case in.Same != nil:
 		f = checkSameName(*in.Same)
 		text = sameNameText(*in.Same)
